@@ -11,8 +11,11 @@ import TFV.Lemmas.PanicFree
 import TFV.Properties.C03x
 import TFV.Properties.C04x
 import TFV.Properties.C05x
+import TFV.Lemmas.Bounds
+import TFV.Properties.C01d
 
-set_option exponentiation.threshold 3000
+set_option exponentiation.threshold 4000
+set_option maxRecDepth 100000
 
 namespace C14p
 open F64 TwoFloat
@@ -60,8 +63,8 @@ theorem exp2_pf (x : TwoFloat) : TwoFloat.exp2.pf x = true := PF.exp2_pf x
 theorem exp_m1_pf (x : TwoFloat) (hi : x.Inv) (hw : x.WF) : TwoFloat.exp_m1.pf x = true :=
   PF.exp_m1_pf x ⟨hi, hw⟩
 
-/-- `powf` never panics on arguments satisfying the invariant — PARTIAL: relative to the closed finite statement
-`PF.ExpHalfRecipInv` (the 1439 reciprocals `1.0 / exp_half(m)` satisfy the invariant; samples below) -/
+/-- `powf` never panics on arguments satisfying the invariant, relative to the closed finite statement
+`PF.ExpHalfRecipInv` (discharged below: `expHalfRecipInv`, `powf_pf`) -/
 theorem powf_pf_partial (HR : PF.ExpHalfRecipInv) (x y : TwoFloat)
     (hx : x.Inv) (hwx : x.WF) (hy : y.Inv) (hwy : y.WF) : TwoFloat.powf.pf x y = true :=
   PF.powf_pf HR x y ⟨hx, hwx⟩ ⟨hy, hwy⟩
@@ -76,6 +79,208 @@ theorem Float_exp_pf (x : TwoFloat) (hv : x.Valid) (hw : x.WF) :
 theorem Float_exp2_pf (x : TwoFloat) : num_integration.impl_Float_for_TwoFloat.exp2.pf x = true := PF.exp2_pf x
 theorem Float_exp_m1_pf (x : TwoFloat) (hi : x.Inv) (hw : x.WF) :
     num_integration.impl_Float_for_TwoFloat.exp_m1.pf x = true := PF.exp_m1_pf x ⟨hi, hw⟩
+
+
+/-! ### `PF.ExpHalfRecipInv`: the reciprocals taken by `exp_half` on negative arguments are valid pairs -/
+
+/-- integer conditions on a pair of table entries under which `1 / (E * H)` is in the range of `C01d.recip_valid` -/
+def pairOK (E H : TwoFloat) : Bool :=
+  decide ((2 : Int) ^ 1188 ≤ |E.hi.toInt * H.hi.toInt| ∧ |E.hi.toInt * H.hi.toInt| < (2 : Int) ^ 3169 ∧
+    |E.V * H.V| * (2 ^ 106 + 7) ≤ 2 ^ 2084 * (F64.unit : Int) * 2 ^ 106 ∧
+    2 ^ 58 * (F64.unit : Int) * 2 ^ 106 ≤ |E.V * H.V| * (2 ^ 106 - 7))
+
+/-- row `i` of the check: all `j` with `32(i+1) + (j+1) ≤ 1400` -/
+def rowOK (i : Nat) : Bool :=
+  (List.range 31).all (fun j => decide (32 * (i + 1) + (j + 1) ≤ 1400) →
+    pairOK (explog.exp_half.EXP_16_N.getD i default) (explog.exp_half.EXP_HALF_N.getD j default))
+
+theorem rows_ok_1 : (List.range 11).all rowOK = true := by decide +kernel
+theorem rows_ok_2 : (List.range 11).all (fun i => rowOK (i + 11)) = true := by decide +kernel
+theorem rows_ok_3 : (List.range 11).all (fun i => rowOK (i + 22)) = true := by decide +kernel
+theorem rows_ok_4 : (List.range 10).all (fun i => rowOK (i + 33)) = true := by decide +kernel
+
+theorem pair_ok (i j : Nat) (hi : i < 43) (hj : j < 31) (hm : 32 * (i + 1) + (j + 1) ≤ 1400) :
+    pairOK (explog.exp_half.EXP_16_N.getD i default) (explog.exp_half.EXP_HALF_N.getD j default) = true := by
+  have hrow : rowOK i = true := by
+    rcases Nat.lt_or_ge i 11 with h | h
+    · exact List.all_eq_true.1 rows_ok_1 i (List.mem_range.2 h)
+    · rcases Nat.lt_or_ge i 22 with h2 | h2
+      · have := List.all_eq_true.1 rows_ok_2 (i - 11) (List.mem_range.2 (by omega))
+        rwa [Nat.sub_add_cancel h] at this
+      · rcases Nat.lt_or_ge i 33 with h3 | h3
+        · have := List.all_eq_true.1 rows_ok_3 (i - 22) (List.mem_range.2 (by omega))
+          rwa [Nat.sub_add_cancel h2] at this
+        · have := List.all_eq_true.1 rows_ok_4 (i - 33) (List.mem_range.2 (by omega))
+          rwa [Nat.sub_add_cancel h3] at this
+  have := List.all_eq_true.1 hrow j (List.mem_range.2 hj)
+  simpa [hm] using this
+
+theorem EXP_16_N_valid : ∀ t ∈ explog.exp_half.EXP_16_N, t.Valid ∧ t.WF := by decide +kernel
+theorem EXP_HALF_N_valid : ∀ t ∈ explog.exp_half.EXP_HALF_N, t.Valid ∧ t.WF := by decide +kernel
+
+/-- magnitude window of `C01d.recip_valid` -/
+def inWin (t : TwoFloat) : Bool := decide (2 ^ 58 ≤ t.hi.toInt.natAbs ∧ t.hi.toInt.natAbs ≤ 2 ^ 2084)
+
+theorem EXP_16_N_win : (explog.exp_half.EXP_16_N.take 43).all inWin = true := by decide +kernel
+theorem EXP_HALF_N_win : explog.exp_half.EXP_HALF_N.all inWin = true := by decide +kernel
+
+
+/-- `1 / (E * H)` is a valid pair when the integer conditions `pairOK E H` hold -/
+theorem recip_mul_valid {E H : TwoFloat} (hE : E.Valid ∧ E.WF) (hH : H.Valid ∧ H.WF) (hok : pairOK E H = true) :
+    (TwoFloat.recip (arithmetic.impl_Mul_TwoFloat_for_TwoFloat.mul E H)).Valid := by
+  obtain ⟨h1, h2, h3, h4⟩ := of_decide_eq_true hok
+  obtain ⟨yv, herr⟩ := TwoFloat.mul_tt_bound_7u2_partial hE.1 hE.2 hH.1 hH.2 (Or.inr ⟨h1, h2⟩)
+  show (TwoFloat.recip (arithmetic.impl_Mul_rTwoFloat_for_rTwoFloat.mul E H)).Valid
+  generalize arithmetic.impl_Mul_rTwoFloat_for_rTwoFloat.mul E H = y at yv herr ⊢
+  have hUpos : (0 : Int) < (F64.unit : Int) := by exact_mod_cast F64.unit_pos
+  generalize E.V * H.V = P at h3 h4 herr
+  -- bounds on |y.V|
+  have hT1 : |y.V * (F64.unit : Int)| * 2 ^ 106 ≤ |P| * (2 ^ 106 + 7) := by
+    have := abs_sub_abs_le_abs_sub (y.V * (F64.unit : Int)) P
+    nlinarith [abs_nonneg (y.V * (F64.unit : Int) - P), abs_nonneg P]
+  have hT2 : |P| * (2 ^ 106 - 7) ≤ |y.V * (F64.unit : Int)| * 2 ^ 106 := by
+    have := abs_sub_abs_le_abs_sub P (y.V * (F64.unit : Int))
+    rw [abs_sub_comm] at this
+    nlinarith [abs_nonneg (y.V * (F64.unit : Int) - P), abs_nonneg P]
+  have hK : (0 : Int) < (F64.unit : Int) * 2 ^ 106 := by positivity
+  have hup : |y.V| ≤ 2 ^ 2084 := by
+    have : |y.V| * ((F64.unit : Int) * 2 ^ 106) ≤ 2 ^ 2084 * ((F64.unit : Int) * 2 ^ 106) := by
+      rw [abs_mul, abs_of_pos hUpos] at hT1
+      calc |y.V| * ((F64.unit : Int) * 2 ^ 106) = |y.V| * (F64.unit : Int) * 2 ^ 106 := by ring
+        _ ≤ |P| * (2 ^ 106 + 7) := hT1
+        _ ≤ 2 ^ 2084 * (F64.unit : Int) * 2 ^ 106 := h3
+        _ = _ := by ring
+    exact le_of_mul_le_mul_right this hK
+  have hlow : (2 : Int) ^ 58 ≤ |y.V| := by
+    have : 2 ^ 58 * ((F64.unit : Int) * 2 ^ 106) ≤ |y.V| * ((F64.unit : Int) * 2 ^ 106) := by
+      rw [abs_mul, abs_of_pos hUpos] at hT2
+      calc 2 ^ 58 * ((F64.unit : Int) * 2 ^ 106) = 2 ^ 58 * (F64.unit : Int) * 2 ^ 106 := by ring
+        _ ≤ |P| * (2 ^ 106 - 7) := h4
+        _ ≤ |y.V| * (F64.unit : Int) * 2 ^ 106 := hT2
+        _ = _ := by ring
+    exact le_of_mul_le_mul_right this hK
+  have hhi : y.hi.toInt = rnI y.V := yv.hi_toInt
+  have r58 : RepI ((2 : Int) ^ 58) := PF.repI_two_pow 58
+  have r2084 : RepI ((2 : Int) ^ 2084) := PF.repI_two_pow 2084
+  have b1 : (2 : Int) ^ 58 ≤ |y.hi.toInt| := by
+    rw [hhi]
+    have := le_abs_rnI r58 (v := y.V) (by rw [abs_of_pos (by positivity)]; exact hlow)
+    rwa [abs_of_pos (by positivity)] at this
+  have b2 : |y.hi.toInt| ≤ (2 : Int) ^ 2084 := by
+    rw [hhi]
+    have h0 : |(2 : Int) ^ 2084| = 2 ^ 2084 := abs_of_pos (by positivity)
+    have := abs_rnI_le r2084 (v := y.V) (by rw [h0]; exact hup)
+    rwa [h0] at this
+  refine (C01d.recip_valid y yv ?_ ?_).1
+  · have : ((2 ^ 58 : Nat) : Int) ≤ ((y.hi.toInt.natAbs : Nat) : Int) := by
+      rw [Int.natCast_natAbs]; push_cast; exact b1
+    exact_mod_cast this
+  · have : ((y.hi.toInt.natAbs : Nat) : Int) ≤ ((2 ^ 2084 : Nat) : Int) := by
+      rw [Int.natCast_natAbs]; push_cast; exact b2
+    exact_mod_cast this
+
+
+theorem getD_mem_of_lt (l : List TwoFloat) (i : Nat) (h : i < l.length) : l.getD i default ∈ l := by
+  rw [List.getD_eq_getElem?_getD, List.getElem?_eq_getElem h, Option.getD_some]; exact List.getElem_mem h
+
+/-- the last 18 values, by kernel evaluation -/
+theorem recip_tail_ok :
+    (List.range 18).all (fun i => decide (arithmetic.impl_Div_TwoFloat_for_f64.div (f64lit 0x3ff0000000000000)
+      (explog.exp_half.go 1 (⟨1401 + (i : Int)⟩ : I32))).Inv) = true := by decide +kernel
+
+/-- **`PF.ExpHalfRecipInv` holds**: `1.0 / exp_half(m)` satisfies the invariant for `1 ≤ m ≤ 1418` -/
+theorem expHalfRecipInv : PF.ExpHalfRecipInv := by
+  intro m h1 h2
+  by_cases hm : 1400 < m
+  · -- kernel-evaluated tail
+    have := List.all_eq_true.1 recip_tail_ok (m - 1401).toNat (List.mem_range.2 (by omega))
+    have e : (1401 : Int) + (((m - 1401).toNat : Nat) : Int) = m := by omega
+    rw [e] at this
+    exact of_decide_eq_true this
+  · -- `exp_half(m)` is a table entry or a product of two, in the range of the division theorem
+    have hm' : m ≤ 1400 := by omega
+    refine Or.inl ?_
+    show (TwoFloat.recip (explog.exp_half.go (0 + 1) (⟨m⟩ : I32))).Valid
+    simp only [explog.exp_half.go]
+    have hneg : (⟨m⟩ : I32).is_negative = false := by
+      show decide (m < 0) = false
+      simp; omega
+    have hd : ((⟨m⟩ : I32) /. (32 : I32)) = ⟨m / 32⟩ := by
+      show (⟨Int.tdiv m 32⟩ : I32) = _
+      rw [Int.tdiv_eq_ediv_of_nonneg (by omega)]
+    have hmod : ((⟨m⟩ : I32) %. (32 : I32)) = ⟨m % 32⟩ := by
+      show (⟨Int.tmod m 32⟩ : I32) = _
+      rw [Int.tmod_eq_emod_of_nonneg (by omega)]
+    rw [hneg]
+    simp only [Bool.false_eq_true, if_false]
+    rw [hd, hmod, PF.cast_i32_usize _ (by omega) (by omega), PF.cast_i32_usize _ (by omega) (by omega)]
+    obtain ⟨A, hA⟩ : ∃ A : Nat, m / 32 = (A : Int) := ⟨(m / 32).toNat, by omega⟩
+    obtain ⟨B, hB⟩ : ∃ B : Nat, m % 32 = (B : Int) := ⟨(m % 32).toNat, by omega⟩
+    have hAB : m = 32 * (A : Int) + B := by omega
+    have hB31 : B ≤ 31 := by omega
+    rw [hA, hB]
+    have idx : ∀ (l : List TwoFloat) (n : Nat), RIndex.index l ((⟨(n : Int)⟩ : Usize) -. (1 : Usize))
+        = l.getD (n - 1) default := by
+      intro l n
+      show l.getD ((n : Int) - 1).toNat default = _
+      congr 1; omega
+    rw [idx, idx]
+    have l16 : explog.exp_half.EXP_16_N.length = 44 := by decide
+    have lh : explog.exp_half.EXP_HALF_N.length = 31 := by decide
+    cases hgA : ((⟨(A : Int)⟩ : Usize) >. (0 : Usize)) <;> cases hgB : ((⟨(B : Int)⟩ : Usize) >. (0 : Usize))
+    · -- A = 0, B = 0: impossible
+      exfalso
+      have a0 : ¬ (0 : Int) < A := fun h => by
+        have := (PF.igt_iff (⟨(A : Int)⟩ : Usize) (0 : Usize)).2 h
+        rw [hgA] at this; cases this
+      have b0 : ¬ (0 : Int) < B := fun h => by
+        have := (PF.igt_iff (⟨(B : Int)⟩ : Usize) (0 : Usize)).2 h
+        rw [hgB] at this; cases this
+      omega
+    · -- A = 0: an entry of EXP_HALF_N
+      have hB0 : (0 : Int) < B := (PF.igt_iff _ _).1 hgB
+      show (TwoFloat.recip (explog.exp_half.EXP_HALF_N.getD (B - 1) default)).Valid
+      have hmem := getD_mem_of_lt explog.exp_half.EXP_HALF_N (B - 1) (by rw [lh]; omega)
+      have hw := of_decide_eq_true (List.all_eq_true.1 EXP_HALF_N_win _ hmem)
+      exact (C01d.recip_valid _ (EXP_HALF_N_valid _ hmem).1 hw.1 hw.2).1
+    · -- B = 0: an entry of EXP_16_N (index ≤ 42)
+      have hA0 : (0 : Int) < A := (PF.igt_iff _ _).1 hgA
+      have b0 : ¬ (0 : Int) < B := fun h => by
+        have := (PF.igt_iff (⟨(B : Int)⟩ : Usize) (0 : Usize)).2 h
+        rw [hgB] at this; cases this
+      have hA43 : A ≤ 43 := by omega
+      show (TwoFloat.recip (explog.exp_half.EXP_16_N.getD (A - 1) default)).Valid
+      have hmem := getD_mem_of_lt explog.exp_half.EXP_16_N (A - 1) (by rw [l16]; omega)
+      have hmem' : explog.exp_half.EXP_16_N.getD (A - 1) default ∈ explog.exp_half.EXP_16_N.take 43 := by
+        rw [List.getD_eq_getElem?_getD, List.getElem?_eq_getElem (by rw [l16]; omega), Option.getD_some]
+        rw [List.mem_take_iff_getElem]
+        exact ⟨A - 1, by rw [l16]; omega, rfl⟩
+      have hw := of_decide_eq_true (List.all_eq_true.1 EXP_16_N_win _ hmem')
+      exact (C01d.recip_valid _ (EXP_16_N_valid _ hmem).1 hw.1 hw.2).1
+    · -- a product
+      have hA0 : (0 : Int) < A := (PF.igt_iff _ _).1 hgA
+      have hB0 : (0 : Int) < B := (PF.igt_iff _ _).1 hgB
+      have hA43 : A ≤ 43 := by omega
+      show (TwoFloat.recip (arithmetic.impl_Mul_TwoFloat_for_TwoFloat.mul
+        (explog.exp_half.EXP_16_N.getD (A - 1) default) (explog.exp_half.EXP_HALF_N.getD (B - 1) default))).Valid
+      apply recip_mul_valid
+      · exact EXP_16_N_valid _ (getD_mem_of_lt _ _ (by rw [l16]; omega))
+      · exact EXP_HALF_N_valid _ (getD_mem_of_lt _ _ (by rw [lh]; omega))
+      · exact pair_ok (A - 1) (B - 1) (by omega) (by omega) (by omega)
+
+
+/-! ### unconditional corollaries -/
+
+/-- **`powf` never panics** on arguments satisfying the invariant (in particular on valid ones) -/
+theorem powf_pf (x y : TwoFloat) (hx : x.Inv) (hwx : x.WF) (hy : y.Inv) (hwy : y.WF) :
+    TwoFloat.powf.pf x y = true := powf_pf_partial expHalfRecipInv x y hx hwx hy hwy
+
+/-- **`exp` preserves the invariant** -/
+theorem exp_inv (x : TwoFloat) (hi : x.Inv) (hw : x.WF) : (TwoFloat.exp x).Inv ∧ (TwoFloat.exp x).WF :=
+  exp_inv_partial expHalfRecipInv x hi hw
+
+theorem Float_powf_pf (x y : TwoFloat) (hx : x.Inv) (hwx : x.WF) (hy : y.Inv) (hwy : y.WF) :
+    num_integration.impl_Float_for_TwoFloat.powf.pf x y = true := powf_pf x y hx hwx hy hwy
 
 /-! ### closed instances -/
 
